@@ -260,7 +260,10 @@ func callArgs(fset *token.FileSet, pkg string, funcs map[string]*ast.FuncDecl, f
 		for i := 0; i < n; i++ {
 			switch t := f.Type.(type) {
 			case *ast.Ellipsis:
-				// none
+				// construction-time options: drawn per history by the harness (ctoropts.go); other variadics: none
+				if exprString(fset, t.Elt) == "resource.Option" {
+					args = append(args, fmt.Sprintf("ctorOpts(%q)...", pkg+"."+fd.Name.Name))
+				}
 			case *ast.StarExpr:
 				switch x := t.X.(type) {
 				case *ast.Ident:
@@ -500,8 +503,8 @@ func scanServers(repo string) ([]Server, []string, error) {
 type Target struct {
 	Server Server
 	Triple Triple
-	Eq     string // "none" | "exact" (the model's own Pull compares with cmp.Equal) | "oracle" (the resource.Value carries a comparer)
-	EqSrc  string // what the source text says: "none" | "exact" | "approx(f,m)" | "custom:<expr>"
+	Eq     string    // "none" | "exact" (the model's own Pull compares with cmp.Equal) | "oracle" (the resource.Value carries a comparer)
+	EqSrc  string    // what the source text says: "none" | "exact" | "approx(f,m)" | "custom:<expr>"
 	Tols   []float64 // float tolerances the translator found in the source (margins and fractions of FloatValueApprox)
 }
 
